@@ -10,6 +10,8 @@ import json, os, random, re, shutil, subprocess, sys
 
 FILES = ['src/filedb/inner/dbxxx.rs', 'src/filedb/inner/key.rs', 'src/filedb/inner/val.rs', 'src/filedb/inner/htx.rs',
          'src/filedb/inner/piece.rs', 'src/filedb/inner/vfile.rs', 'src/lib.rs', 'src/filedb/inner/mod.rs']
+if os.environ.get('MUT_FILES'):
+    FILES = os.environ['MUT_FILES'].split(',')
 RULES = [(r' < ', ' <= '), (r' <= ', ' < '), (r' > ', ' >= '), (r' >= ', ' > '), (r' == ', ' != '), (r' != ', ' == '),
          (r' \+ 1\b', ' + 2'), (r' - 1\b', ' - 2'), (r' \+ 8\b', ' + 7'), (r' \* 8\b', ' * 4'), (r' / 8\b', ' / 4'),
          (r'\btrue\b', 'false'), (r'\bfalse\b', 'true'), (r' && ', ' || '), (r' \|\| ', ' && '),
